@@ -70,7 +70,7 @@ func (s *coSched) hook(id int) {
 	if t == nil {
 		return
 	}
-	if id < internal.VPBufBeforeTailCAS || id > internal.VPBufBeforeFree {
+	if (id < internal.VPBufBeforeTailCAS || id > internal.VPBufBeforeFree) && id != internal.VPBufBetweenLoads {
 		return
 	}
 	t.yielded <- id
@@ -124,6 +124,8 @@ func evName(ev int) string {
 		return "headStore"
 	case internal.VPBufBeforeFree:
 		return "free"
+	case internal.VPBufBetweenLoads:
+		return "loads"
 	}
 	return fmt.Sprint(ev)
 }
